@@ -509,6 +509,32 @@ def run_sites(chk: core.Check, n_exact: int, n_float: int) -> None:
             chk.broke("correspondence", {"site": site, "why": "generator degenerate: only one outcome seen", "outcomes": sorted(vals)})
 
 
+def inf_percentile_witness(chk: core.Check) -> None:
+    """Known finding F41 (Lean: C13Bridge.percentile_mirror_fails_with_inf): numpy's linear interpolation is not symmetric
+    when a neighbour is infinite - at t = 1/2 between -inf and 0 it answers -inf, between 0 and +inf it answers inf - inf =
+    NaN - so MedianPruner / PercentilePruner decide differently on a history with an infinite report and on its mirror."""
+    import optuna
+
+    def run(direction: str, sign: float) -> bool:
+        st = optuna.create_study(direction=direction, pruner=optuna.pruners.MedianPruner(n_startup_trials=0, n_warmup_steps=0))
+        for v in (-math.inf, 0.0):
+            t = st.ask()
+            t.report(sign * v, 0)
+            st.tell(t, sign * (v if math.isfinite(v) else 1.0))
+        t = st.ask()
+        t.report(sign * 5.0, 0)
+        return bool(t.should_prune())
+
+    a, b = run("minimize", 1.0), run("maximize", -1.0)
+    chk.case({"part": "inf-percentile-witness"}, nontrivial=True)
+    chk.count("inf-percentile-witness")
+    chk.extra["witness_inf_percentile"] = {"minimize": a, "maximize_on_negated": b}
+    if a != b:
+        chk.violation({"site": "percentile-inf-interpolation", "level": "witness", "attributed": True}, {"kind": "witness", "which": "inf-percentile"},
+                      "MedianPruner: finished trials reported {-inf, 0} at step 0, the running trial reports 5 under minimize: should_prune() = %s; the mirrored "
+                      "maximize study ({+inf, 0}, -5) answers %s (np.nanpercentile([-inf, 0], 50) = -inf but np.nanpercentile([0, inf], 50) = nan)" % (a, b))
+
+
 def replay_witnesses(chk: core.Check) -> None:
     """The two formerly asymmetric sites (NSGA-II crowding tie order, NSGA-III niching), after their repairs: correspondence with
     the model and symmetry on many inputs; the old behaviours' witnesses come first, so that a revert is reported concretely."""
@@ -909,10 +935,12 @@ def main(chk: core.Check) -> int:
     from verif.props import c13_tpe, c16_wilcoxon
     c13_tpe.prepare(chk)        # Generated/TpeInt.lean from optuna/samplers/_tpe/sampler.py
     c16_wilcoxon.prepare(chk)   # Generated/WilcoxonSkel.lean (wilcoxon_direction_mirror is about the whole prune)
+    from verif.props import c16_skel
+    c16_skel.prepare(chk)       # Generated/PrunersSkel.lean (Props/C13Bridge gen_prune_mirror* go through C16SkelGen.skel_prune_eq)
     from verif.props import c15_nsga
     c15_nsga.translate(chk)     # T-nsga2: content keys of the NSGA-II functions mirrored by Model/Nsga2.lean
     if not getattr(chk, "no_prove", False):
-        chk.prove(["OptunaVerif.Props.C13", "OptunaVerif.Props.C13Nsga"] + c13_tpe.PROPS_MODULES + c16_wilcoxon.PROPS_MODULES)
+        chk.prove(["OptunaVerif.Props.C13", "OptunaVerif.Props.C13Nsga", "OptunaVerif.Props.C13Bridge"] + c13_tpe.PROPS_MODULES + c16_wilcoxon.PROPS_MODULES)
     quick = chk.tier == "quick"
     try:
         core.ensure_driver()
@@ -920,6 +948,7 @@ def main(chk: core.Check) -> int:
         if not os.environ.get("C13_DEV_SKIP_SITES"):  # development only: measure what the paired runs find on their own
             run_sites(chk, n_exact=60 if quick else 600, n_float=60 if quick else 600)
         replay_witnesses(chk)
+        inf_percentile_witness(chk)  # F41: +-inf reports and numpy's interpolation
         c13_tpe.correspond(chk, chk.tier)                      # _split_trials pipeline, gamma, weights vs Model/TpeSplit.lean + mirrored runs
         c16_wilcoxon.mirror(chk, 150 if quick else 3000)        # whole WilcoxonPruner.prune: maximize on v = minimize on -v
     except core.DriverBroken as e:
